@@ -60,6 +60,8 @@ def do_replay(prop, path):
 
 
 def main(argv=None):
+    sys.set_int_max_str_digits(0)
+    sys.setrecursionlimit(20000)
     ap = argparse.ArgumentParser()
     ap.add_argument("prop")
     ap.add_argument("--tier", default=os.environ.get("VERIF_TIER", "quick"))
